@@ -16,7 +16,7 @@ Local Open Scope string_scope.
 
 (* ------------------------------------------------------------------ the site table *)
 
-Inductive kind := KAssert | KIndex | KPanic | KMust | KNilderef | KRecursion | KNilarg | KNilfield | KDyncmp.
+Inductive kind := KAssert | KIndex | KPanic | KMust | KNilderef | KRecursion | KNilarg | KNilfield | KDyncmp | KUnsetfield.
 
 Inductive verdict :=
 | Validated (validator : string)   (* unreachable: an earlier stage (named) rejects every input that would reach it *)
@@ -33,7 +33,7 @@ Record site := mk {
 Definition kind_eqb (a b : kind) : bool :=
   match a, b with
   | KAssert, KAssert | KIndex, KIndex | KPanic, KPanic | KMust, KMust
-  | KNilderef, KNilderef | KRecursion, KRecursion | KNilarg, KNilarg | KNilfield, KNilfield | KDyncmp, KDyncmp => true
+  | KNilderef, KNilderef | KRecursion, KRecursion | KNilarg, KNilarg | KNilfield, KNilfield | KDyncmp, KDyncmp | KUnsetfield, KUnsetfield => true
   | _, _ => false
   end.
 
@@ -74,6 +74,10 @@ Inductive site_id :=
 | S_bx_a_cmp_panic1 | S_bx_a_cmp_panic2 | S_bx_a_kinds0
 | S_bx_remove_i | S_bx_remove_last | S_bx_remove_slice
 | S_bx_n_Release_idx | S_bx_n_cmp_panic1 | S_bx_n_cmp_panic2 | S_bx_n_referSame_panic
+(* packagedeploy, transform include; the historical unset field of the cluster deployer *)
+| S_pd_newOSList_panic | S_pd_newOSList_assert | S_pd_newCOSList_panic | S_pd_newCOSList_assert | S_pd_OSList_out_i | S_pd_OSList_items_i | S_pd_COSList_out_i | S_pd_COSList_items_i | S_pd_chunk_out_i
+| N_pd_Deploy_tmplCtx_Config | N_pd_Deploy_pkg_ManifestLock | N_pd_desired_pkgInstance_Manifest | N_pd_checkConstraints_PlatformVersion | N_pd_checkConstraints_PlatformVersion_via_pv | N_pd_checkConstraints_env_OpenShift | S_pd_phases_i | S_pd_sliceNames_i | S_tf_include_reentry
+| S_v0_pd_uncachedClient_unset
 (* dereferences of pointer-typed struct fields (kind nilfield), one per (function, chain, guarded) *)
 | N_cmd_WaitForCondition_w_waiter | N_tree_RenderPackage_pkgInstance_Manifest | N_tree_getTemplateContext_pkg_Manifest
 | N_tree_getConfig_pkg_Manifest | N_tree_getConfig_test_Context_Config
@@ -243,6 +247,27 @@ Definition descr (i : site_id) : site :=
       mk F_bxn "(*OwnerStrategyNative).ownerRefForCompare" KPanic ("panic(fmt.Sprintf(""" ++ NotRunnable ++ """, owner))") false 1
   | S_bx_n_cmp_panic2 => mk F_bxn "(*OwnerStrategyNative).ownerRefForCompare" KPanic "panic(err)" false 1
   | S_bx_n_referSame_panic => mk F_bxn "(*OwnerStrategyNative).referSameObject" KPanic "panic(err)" false 2
+  | S_pd_newOSList_panic => mk "internal/packages/internal/packagedeploy/adapter_objectsetlist.go" "newGenericObjectSetList" KPanic "panic(err)" false 1
+  | S_pd_newOSList_assert => mk "internal/packages/internal/packagedeploy/adapter_objectsetlist.go" "newGenericObjectSetList" KAssert "obj.(*corev1alpha1.ObjectSetList)" false 1
+  | S_pd_newCOSList_panic => mk "internal/packages/internal/packagedeploy/adapter_objectsetlist.go" "newGenericClusterObjectSetList" KPanic "panic(err)" false 1
+  | S_pd_newCOSList_assert => mk "internal/packages/internal/packagedeploy/adapter_objectsetlist.go" "newGenericClusterObjectSetList" KAssert "obj.(*corev1alpha1.ClusterObjectSetList)" false 1
+  | S_pd_OSList_out_i => mk "internal/packages/internal/packagedeploy/adapter_objectsetlist.go" "(*GenericObjectSetList).GetItems" KIndex "out[i]" false 1
+  | S_pd_OSList_items_i => mk "internal/packages/internal/packagedeploy/adapter_objectsetlist.go" "(*GenericObjectSetList).GetItems" KIndex "a.Items[i]" true 1
+  | S_pd_COSList_out_i => mk "internal/packages/internal/packagedeploy/adapter_objectsetlist.go" "(*GenericClusterObjectSetList).GetItems" KIndex "out[i]" false 1
+  | S_pd_COSList_items_i => mk "internal/packages/internal/packagedeploy/adapter_objectsetlist.go" "(*GenericClusterObjectSetList).GetItems" KIndex "a.Items[i]" true 1
+  | S_pd_chunk_out_i => mk "internal/packages/internal/packagedeploy/chunking.go" "(*EachObjectChunker).Chunk" KIndex "out[i]" false 1
+  | N_pd_Deploy_tmplCtx_Config => mk "internal/packages/internal/packagedeploy/deployer.go" "(*PackageDeployer).Deploy" KNilfield "tmplCtx.Config" true 1
+  | N_pd_Deploy_pkg_ManifestLock => mk "internal/packages/internal/packagedeploy/deployer.go" "(*PackageDeployer).Deploy" KNilfield "pkg.ManifestLock" true 1
+  | N_pd_desired_pkgInstance_Manifest => mk "internal/packages/internal/packagedeploy/deployer.go" "(*PackageDeployer).desiredObjectDeployment" KNilfield "pkgInstance.Manifest" false 2
+  | N_pd_checkConstraints_PlatformVersion => mk "internal/packages/internal/packagedeploy/deployer.go" "checkConstraints" KNilfield "constraint.PlatformVersion" true 1
+  | N_pd_checkConstraints_PlatformVersion_via_pv => mk "internal/packages/internal/packagedeploy/deployer.go" "checkConstraints" KNilfield "constraint.PlatformVersion (via pv)" true 4
+  | N_pd_checkConstraints_env_OpenShift => mk "internal/packages/internal/packagedeploy/deployer.go" "checkConstraints" KNilfield "env.OpenShift" true 1
+  | S_pd_phases_i => mk "internal/packages/internal/packagedeploy/deployment_reconciler.go" "(*DeploymentReconciler).Reconcile" KIndex "templateSpec.Phases[i]" true 1
+  | S_pd_sliceNames_i => mk "internal/packages/internal/packagedeploy/deployment_reconciler.go" "(*DeploymentReconciler).chunkPhase" KIndex "sliceNames[i]" false 1
+  | S_tf_include_reentry => mk "internal/transform/transformfiles_funcs.go" "SprigFuncs" KRecursion """include"" -> t.ExecuteTemplate (re-entrant through text/template)" true 1
+  | S_v0_pd_uncachedClient_unset =>
+      mk "internal/packages/internal/packagedeploy/deployer.go" "NewClusterPackageDeployer" KUnsetfield
+         "PackageDeployer.uncachedClient left unset; used in (*PackageDeployer).Deploy" false 1
   | N_cmd_WaitForCondition_w_waiter => mk "internal/cmd/cmd.go" "(*DefaultWaiter).WaitForCondition" KNilfield "w.waiter" false 1
   | N_tree_RenderPackage_pkgInstance_Manifest => mk "internal/cmd/tree.go" "(*Tree).RenderPackage" KNilfield "pkgInstance.Manifest" false 1
   | N_tree_getTemplateContext_pkg_Manifest => mk "internal/cmd/tree.go" "(*Tree).getTemplateContext" KNilfield "pkg.Manifest" false 3
@@ -317,6 +342,8 @@ Definition F_C19d := "C19 panic objecttemplate.copySourceItem: empty destination
 Definition F_C19e := "C19 panic ownerhandling.(*OwnerStrategyAnnotation).getOwnerReferences: owners annotation of a cluster or desired object is not JSON".
 
 Definition F_C19f := "C19 panic packagemanifestvalidation.validateSchemaStuffWithXPrefixedName: x-kubernetes-validations of the config schema compiled with a nil CEL environment set".
+
+Definition F_C19g := "C19 panic packagedeploy.validateUnique at `if err := uncachedClient.List(ctx, dst, &client.ListOptions{LabelSelector: s}); err != nil {`".
 
 Definition typed_obj := "the receiver's obj field is only ever set from a typed Get/List of exactly the two kinds the preceding comma-ok assertion distinguishes (client.go constructors)".
 Definition range_index := "index is the key of a range over a slice of the same length (made with len(..) of the ranged slice, or the slice itself)".
@@ -431,6 +458,25 @@ Definition verdict_of (i : site_id) : verdict :=
   | N_bxannotation_SetControllerReference_ownerRef_Controller | N_bxannotation_IsController_ownerRef_Controller
   | N_bxannotation_isController_r_Controller | N_bxnative_GetController_ref_Controller
   | N_bxnative_IsController_ownerRef_Controller => ByConstruction nil_dominated
+  | S_pd_newOSList_panic => ByConstruction programmer
+  | S_pd_newOSList_assert => ByConstruction "scheme.New of a constant GroupVersionKind returns that kind's Go type"
+  | S_pd_newCOSList_panic => ByConstruction programmer
+  | S_pd_newCOSList_assert => ByConstruction "scheme.New of a constant GroupVersionKind returns that kind's Go type"
+  | S_pd_OSList_out_i => ByConstruction range_index
+  | S_pd_OSList_items_i => ByConstruction range_index
+  | S_pd_COSList_out_i => ByConstruction range_index
+  | S_pd_COSList_items_i => ByConstruction range_index
+  | S_pd_chunk_out_i => ByConstruction range_index
+  | N_pd_Deploy_tmplCtx_Config => ByConstruction nil_dominated
+  | N_pd_Deploy_pkg_ManifestLock => ByConstruction nil_dominated
+  | N_pd_desired_pkgInstance_Manifest => ByConstruction manifest_set
+  | N_pd_checkConstraints_PlatformVersion => ByConstruction nil_dominated
+  | N_pd_checkConstraints_PlatformVersion_via_pv => ByConstruction nil_dominated
+  | N_pd_checkConstraints_env_OpenShift => ByConstruction nil_dominated
+  | S_pd_phases_i => ByConstruction range_index
+  | S_pd_sliceNames_i => ByConstruction range_index
+  | S_tf_include_reentry => ByConstruction "the include function refuses to nest more than recursionDepth + 1 active includes per template name: counter per name, incremented on entry, decremented on return, checked before the nested execution - the translator's guard flag for this site requires all three (model: gstep / grun, theorems include_depth_bounded, include_per_name_bounded; the delete-on-exit shape is refuted by delete_on_exit_unbounded_refuted)"
+  | S_v0_pd_uncachedClient_unset => Fixed "9533cda" F_C19g
   | S_bx_n_referSame_panic => Validated "kube-apiserver ValidateOwnerReferences: metadata.ownerReferences[].apiVersion of a stored object parses as a group/version; the other operand is built from the scheme"
   end.
 
@@ -458,6 +504,8 @@ Definition all_sites : list site_id :=
     S_bx_a_cmp_panic1; S_bx_a_cmp_panic2; S_bx_a_kinds0;
     S_bx_remove_i; S_bx_remove_last; S_bx_remove_slice;
     S_bx_n_Release_idx; S_bx_n_cmp_panic1; S_bx_n_cmp_panic2; S_bx_n_referSame_panic;
+    S_pd_newOSList_panic; S_pd_newOSList_assert; S_pd_newCOSList_panic; S_pd_newCOSList_assert; S_pd_OSList_out_i; S_pd_OSList_items_i; S_pd_COSList_out_i; S_pd_COSList_items_i; S_pd_chunk_out_i;
+    N_pd_Deploy_tmplCtx_Config; N_pd_Deploy_pkg_ManifestLock; N_pd_desired_pkgInstance_Manifest; N_pd_checkConstraints_PlatformVersion; N_pd_checkConstraints_PlatformVersion_via_pv; N_pd_checkConstraints_env_OpenShift; S_pd_phases_i; S_pd_sliceNames_i; S_tf_include_reentry; S_v0_pd_uncachedClient_unset;
     N_cmd_WaitForCondition_w_waiter; N_tree_RenderPackage_pkgInstance_Manifest;
     N_tree_getTemplateContext_pkg_Manifest; N_tree_getConfig_pkg_Manifest; N_tree_getConfig_test_Context_Config;
     N_tree_getConfig_pkg_Manifest_Test_Template_0_Context_Config_via_testCtxCfg;
@@ -1044,3 +1092,62 @@ Definition anno_wellformed (a : anno_state) : bool :=
 Definition phase_owner_reads (teardown : bool) (desired : anno_state) (actual : option anno_state) : outcome unit :=
   bind (if teardown then Ok tt else get_owner_refs desired) (fun _ =>
   match actual with None => Ok tt | Some a => get_owner_refs a end).
+
+(* ------------------------------------------------------------------ (6) the include recursion guard
+   transform/transformfiles_funcs.go:221-256 (SprigFuncs: `include`). A render is a well-bracketed sequence
+   of entries into and returns from included templates; the guard keeps a counter per template name. *)
+
+Definition include_limit : nat := 1000.   (* recursionDepth *)
+
+Inductive gop := Enter (name : nat) | Exit.
+(** what happens to a name's counter when its include returns: the code decrements (:253); the other
+    shape - forgetting the entry - is the mutant of seed C19-E *)
+Inductive exit_policy := Decrement | Delete.
+
+Record gstate := mkg { g_count : nat -> nat; g_stack : list nat }.
+Definition g_init : gstate := mkg (fun _ => 0) [].
+Definition upd (c : nat -> nat) (n v : nat) : nat -> nat := fun m => if Nat.eqb m n then v else c m.
+
+(** [None]: the include is refused with ErrExceededIncludeRecursion and the render unwinds *)
+Definition gstep (pol : exit_policy) (limit : nat) (st : gstate) (op : gop) : option gstate :=
+  match op with
+  | Enter n =>
+      let v := g_count st n in                                          (* :242 absent = 0 *)
+      if Nat.ltb limit v then None                                      (* :243 v > recursionDepth *)
+      else Some (mkg (upd (g_count st) n (S v)) (n :: g_stack st))      (* :246 / :248, :250 ExecuteTemplate *)
+  | Exit =>
+      match g_stack st with
+      | [] => Some st
+      | n :: rest =>
+          Some (mkg (upd (g_count st) n (match pol with Decrement => pred (g_count st n) | Delete => 0 end)) rest)   (* :253 *)
+      end
+  end.
+
+(** the state after the operations, or where the render was refused *)
+Fixpoint grun (pol : exit_policy) (limit : nat) (ops : list gop) (st : gstate) : gstate :=
+  match ops with
+  | [] => st
+  | op :: rest => match gstep pol limit st op with None => st | Some st' => grun pol limit rest st' end
+  end.
+
+Definition depth (st : gstate) : nat := List.length (g_stack st).
+
+(** the shape that defeats delete-on-exit: enter, (enter, return), enter, (enter, return), ... of one name *)
+Fixpoint leaf_first_ops (d : nat) : list gop :=
+  match d with O => [] | S d' => Enter 0 :: Enter 0 :: Exit :: leaf_first_ops d' end.
+
+(* ------------------------------------------------------------------ (7) uniqueInScope constraint of the deployers
+   packagedeploy/deployer.go: Deploy -> checkConstraints -> validateUnique calls uncachedClient.List when the
+   manifest has a uniqueInScope constraint. [client_set]: the constructor that built the deployer set the
+   uncachedClient field; [list_ok]: outcome of the List call (library). *)
+Definition check_unique_with (client_set has_unique list_ok : bool) : outcome unit :=
+  if negb has_unique then Ok tt                                          (* :281-289 *)
+  else if client_set then (if list_ok then Ok tt else Err)               (* :305 / :313 *)
+  else Panic S_v0_pd_uncachedClient_unset.
+
+(** both NewPackageDeployer and NewClusterPackageDeployer set the field (since commit 9533cda); the translator
+    reports a constructor that leaves it out as an `unsetfield` site *)
+Definition check_unique := check_unique_with true.
+(** HISTORICAL (before commit 9533cda "ClusterPackage deployer panicked on uniqueInScope constraints (nil uncached
+    client)"): NewClusterPackageDeployer left the field nil *)
+Definition check_unique_v0_cluster := check_unique_with false.
